@@ -63,6 +63,15 @@ func situations() []situation {
 		{"snippet-with-error", "// @scope: recv\nset req.http.A = std.itoa(\"x\");\n", nil},
 		{"snippet-syntax-error", "// @scope: recv\nset req.http.A = ;\n", nil},
 		{"empty-file", "", nil},
+		// a single surplus token in front of the end of a file, in the main file and in a module
+		{"syntax-error-surplus-brace-at-eof", okSub + "}\n", nil},
+		{"syntax-error-surplus-semicolon-at-eof", okSub + ";", nil},
+		{"syntax-error-surplus-word-at-eof", okSub + "sub\n", nil},
+		{"syntax-error-surplus-string-at-eof", okSub + "\"x\"\n", nil},
+		{"syntax-error-surplus-token-at-eof-of-include", "include \"mod\";\n" + okSub, map[string]string{"mod.vcl": "backend from_mod {\n  .host = \"example.com\";\n}\n;\n"}},
+		{"syntax-error-surplus-brace-at-eof-of-include", "include \"mod\";\n" + okSub, map[string]string{"mod.vcl": "sub from_mod {\n  set req.http.M = \"m\";\n}\n}"}},
+		{"syntax-error-unclosed-subroutine-at-eof", "sub vcl_recv {\n  #FASTLY recv\n  set req.http.A = \"a\";\n", nil},
+		{"syntax-error-lone-token-file", "}", nil},
 		// literals at and beyond the range of their type, in the main file and in a module (-json prints the main file's tree)
 		{"literal-float-max", litProg("FLOAT", "1e308"), nil},
 		{"literal-float-overflow", litProg("FLOAT", "1e999"), nil},
@@ -268,6 +277,10 @@ func run(c Case) engine.Result {
 		os.WriteFile(filepath.Join(dir, ".falco.yml"), []byte(b.String()), 0o644)
 	}
 	want := reference(c)
+	if strings.Contains(c.Situation, "syntax-error") {
+		// by construction: the situation contains a file that is not in the grammar, whatever the parser under test says
+		want = verdict{exit: 1}
+	}
 	res := engine.Result{NonTrivial: true, Outcome: want.String()}
 	ovKind := "none"
 	if len(c.Overrides) > 0 {
